@@ -79,6 +79,6 @@ def selftest(ctx):
     d = json.loads(lines[i2]); d["steps"][0]["rx"] = []; lines[i2] = json.dumps(d)
     open(obs, "w").write("\n".join(lines) + "\n")
     res = common.oracle_pass(ctx, obs, "OracleHsmsSS", nchunks=1)
-    got = sorted(r[0] for r in res["rejections"])
+    got = sorted(r[0] for r in res["rejections"] if not (r[2] or "").startswith("StuckSelected"))   # (the gated reproduction of known finding F1)
     common.log("rejected:", got, "expected", [i1 + 1, i2 + 1])
     return got == [i1 + 1, i2 + 1]
